@@ -62,6 +62,15 @@ def options():
     return run
 
 
+def looponfail():
+    def run(tier: str, seed: int, prop: str) -> list[CompResult]:
+        import t1_looponfail
+
+        return [t1_looponfail.statrecorder(tier, seed), t1_looponfail.failures(tier, seed)]
+
+    return run
+
+
 LB = ["load", "worksteal", "loadscope", "loadfile", "loadgroup"]
 
 PROPS: dict[str, dict[str, Any]] = {
@@ -92,6 +101,12 @@ PROPS: dict[str, dict[str, Any]] = {
         "assumptions": ["argparse / pytest's own option parsing (argv, addopts, PYTEST_ADDOPTS -> config.option) is exercised, not modelled",
                         "the CPU count is an environment parameter of the model (measured with os.sched_getaffinity)",
                         "int() of non-ASCII digit strings is outside the model"],
+    },
+    "C18": {
+        "components": [looponfail()],
+        "assumptions": ["os.walk / Path.stat / pathlib suffix semantics are exercised on a real scratch tree, not modelled; no symlinks",
+                        "the race 'file vanishes between the walk and stat()' (OSError branch) is outside the model",
+                        "mtimes are whole seconds in the harness (st_mtime is compared as a float by the code)"],
     },
     "C15": {
         "components": [sched(["load", "worksteal"], crash=0.15)],
